@@ -7,6 +7,22 @@ import SafeC.Proofs.MemSet
 namespace SafeC
 open Gen Mem
 
+/-- the C18 post-condition spelled out: each of the `n` addressed cells holds `v`, every other cell is
+unchanged, no stray access was recorded, no handler ran, mapping and permissions are as before -/
+def Erased (st st' : St) (dest n v : Nat) : Prop :=
+  (∀ i, i < n → st'.data (dest + i) = v) ∧
+  (∀ a, ¬ (dest ≤ a ∧ a < dest + n) → st'.data a = st.data a) ∧
+  st'.strays = st.strays ∧ st'.events = st.events ∧
+  st'.mapped = st.mapped ∧ st'.wr = st.wr ∧ st'.rd = st.rd
+
+theorem Filled.erased {st st' : St} {d n v : Nat} (h : Filled st st' d n v) : Erased st st' d n v :=
+  ⟨h.inside, h.outside, h.same.strays, h.same.events, h.same.mapped, h.same.wr, h.same.rd⟩
+
+/-- nothing at all happened to the memory; one handler event of kind `k` with `code` was appended -/
+def Untouched (k : Kind) (st st' : St) (code : Nat) : Prop :=
+  st'.data = st.data ∧ st'.strays = st.strays ∧ st'.events = st.events ++ [.handler k code] ∧
+  st'.mapped = st.mapped ∧ st'.wr = st.wr ∧ st'.rd = st.rd
+
 /-- bookkeeping of a failing mem-family call: permissions and strays as before, exactly one
 mem-handler event, carrying the returned code -/
 structure MemFail (st st' : St) (code : Nat) : Prop where
